@@ -254,32 +254,35 @@ func runC09(c *eng.Ctx) {
 			}
 			return false
 		}
-		var filtered types.Object
-		for _, n := range g.Nodes {
-			if as, ok := n.Node.(*ast.AssignStmt); ok && len(as.Rhs) == 1 && len(as.Lhs) >= 1 {
-				if cl, isC := ast.Unparen(as.Rhs[0]).(*ast.CallExpr); isC && isCallNamed(info, cl, "ApplyFilter") {
-					filtered = eng.SelObj(info, as.Lhs[0])
-				}
-			}
-		}
-		stores := func(n *eng.GNode) bool {
-			as, ok := n.Node.(*ast.AssignStmt)
-			if !ok || len(as.Lhs) != 1 || len(as.Rhs) != 1 || !eng.IsField(info, as.Lhs[0], fr) {
-				return false
-			}
-			return filtered != nil && eng.SelObj(info, as.Rhs[0]) == filtered
-		}
-		okAll := filtered != nil
+		// scenario "a jq expression and no filter function": on every successful return the value stored as FilterResult
+		// is the first result of the ApplyFilter call of this execution
+		okAll := true
 		nret := 0
-		reach := g.Reach(eng.Query{FromEntry: true, Assume: assumed, AvoidEdge: g.Infeasible(assumed), AvoidNode: stores})
-		for n := range reach {
-			if ret, isR := eng.IsReturn(n); isR && len(ret.Results) == 2 && eng.IsNil(info, ret.Results[1]) {
-				okAll = false
+		inf := g.Infeasible(assumed)
+		feasible := g.Reach(eng.Query{FromEntry: true, Assume: assumed, AvoidEdge: inf})
+		for _, rn := range g.Nodes {
+			ret, isR := eng.IsReturn(rn)
+			if !isR || !feasible[rn] || len(ret.Results) != 2 || !eng.IsNil(info, ret.Results[1]) {
+				continue
 			}
-		}
-		for _, n := range g.Nodes {
-			if ret, isR := eng.IsReturn(n); isR && len(ret.Results) == 2 && eng.IsNil(info, ret.Results[1]) {
-				nret++
+			nret++
+			resV, _ := eng.SelObj(info, ret.Results[0]).(*types.Var)
+			if resV == nil {
+				okAll = false
+				continue
+			}
+			val, at, n, bare := reachingFieldStore(g, info, rn, resV, func(e ast.Expr) bool {
+				s, ok := ast.Unparen(e).(*ast.SelectorExpr)
+				return ok && info.Uses[s.Sel] == types.Object(fr)
+			}, "FilterResult", assumed)
+			if n != 1 || bare {
+				okAll = false
+				continue
+			}
+			src, _, tup, uniq := valueAt(g, info, f.Decl.Body, at, val, assumed)
+			cl, isC := src.(*ast.CallExpr)
+			if !uniq || !isC || tup != 0 || !isCallNamed(info, cl, "ApplyFilter") {
+				okAll = false
 			}
 		}
 		r.Check(okAll && nret > 0, f.Key+" jq result stored", f.Decl.Pos(), "with a jq filter, FilterResult is the filter's output on every successful return", "with a jq filter applyFilter can return without storing the filter's output in FilterResult (e.g. when the output is an empty object): filterResult is then null although jq printed a value")
